@@ -720,9 +720,17 @@ func (z *Tokenizer) readMarkupDeclaration() TokenType {
 	if z.readDoctype() {
 		return DoctypeToken
 	}
+	if z.err != nil {
+		// A read error (such as ErrBufferExceeded) ended the attempt;
+		// nothing more must be read.
+		return CommentToken
+	}
 	if z.allowCDATA && z.readCDATA() {
 		z.convertNUL = true
 		return TextToken
+	}
+	if z.err != nil {
+		return CommentToken
 	}
 	// It's a bogus comment.
 	z.readUntilCloseAngle()
